@@ -104,8 +104,11 @@ fn migration_leg(acc: &mut Acc, rounds: usize) {
     let texts = vec![deep, "c(other)".to_string(), "[n(id), c(id)]".to_string()];
     let suspend = Arc::new(std::sync::atomic::AtomicBool::new(false));
     let s2 = suspend.clone();
+    let calls: Arc<std::sync::Mutex<Vec<String>>> = Arc::new(std::sync::Mutex::new(Vec::new()));
+    let c2 = calls.clone();
     let h: Handler = Arc::new(move |name, p| {
         let n = if s2.load(std::sync::atomic::Ordering::SeqCst) { 1 } else { 0 };
+        c2.lock().unwrap().push(format!("{name}({})", crate::spec::rv::RV::from_value(&p).show().chars().take(20).collect::<String>()));
         (Ok(Value::Vec(vec![Value::String(name.to_string()), p])), n)
     });
     let mut b = ruleset();
@@ -124,6 +127,7 @@ fn migration_leg(acc: &mut Acc, rounds: usize) {
         })
     };
     let baseline = crate::engine::exec::block_on(mk(&rs, &facts)).unwrap_or_default();
+    let baseline_calls: Vec<String> = std::mem::take(&mut *calls.lock().unwrap());
     suspend.store(true, std::sync::atomic::Ordering::SeqCst);
     // thread B: finishes whatever it is handed
     let (to_b, from_a) = mpsc::channel::<Fut>();
@@ -176,6 +180,16 @@ fn migration_leg(acc: &mut Acc, rounds: usize) {
                 }
             };
             acc.outcome("migration:completed");
+            let made: Vec<String> = std::mem::take(&mut *calls.lock().unwrap());
+            if made != baseline_calls {
+                acc.violation(Violation {
+                    sig: "migration/calls".into(),
+                    what: format!("evaluation polled {k} time(s) on one thread and finished on another invoked {made:?}, sequentially {baseline_calls:?}"),
+                    case: json!({"kind": "migration", "suspension": k, "round": round}),
+                    size: round,
+                });
+                break;
+            }
             if got != baseline {
                 acc.violation(Violation {
                     sig: "migration/outcome".into(),
@@ -188,6 +202,7 @@ fn migration_leg(acc: &mut Acc, rounds: usize) {
         }
         // a fresh evaluation on the thread that started (and gave away) all those evaluations
         let fresh = crate::engine::exec::block_on(mk(&rs, &facts)).unwrap_or_default();
+        calls.lock().unwrap().clear();
         acc.count("executions", 1);
         if fresh != baseline {
             acc.violation(Violation {
@@ -200,6 +215,78 @@ fn migration_leg(acc: &mut Acc, rounds: usize) {
     }
     drop(to_b);
     let _ = worker.join();
+}
+
+/// Free-running stress on real OS threads.  NOT part of the deciding exploration (it samples
+/// schedules); it is here because synchronisation primitives *inside* reval would be invisible to
+/// loom.  A mismatch it finds is real (the baseline comes from an identically built ruleset that
+/// is only ever evaluated sequentially); silence proves nothing.
+fn stress_leg(acc: &mut Acc, rounds: usize) {
+    use super::probe::*;
+    use crate::spec::eval::{observe, Obs};
+    use reval::prelude::*;
+    use std::collections::BTreeMap;
+    use std::sync::{Arc, Barrier};
+    let h: Handler = Arc::new(move |name, p| (Ok(Value::Vec(vec![Value::String(name.to_string()), p])), 1));
+    let texts = ["c(id)", "c(other)", "[n(id), c(id), c(i7)]", "c(id) == c(other)", "if id > other then c(other) else c(id + other)"];
+    let build = || {
+        let mut b = ruleset();
+        for (i, t) in texts.iter().enumerate() {
+            b = b.with_rule(Rule::new(format!("r{i}"), BTreeMap::new(), Expr::parse(t).unwrap())).unwrap();
+        }
+        Arc::new(b.with_function(probe("c", true, &h)).unwrap().with_function(probe("n", false, &h)).unwrap().build())
+    };
+    let shared = build();
+    let reference = build();
+    let threads = 8usize;
+    let barrier = Arc::new(Barrier::new(threads));
+    let facts = |round: usize, t: usize| Value::Map([("id".to_string(), Value::Int((round * threads + t) as i128)), ("other".to_string(), Value::Int((round * 31 + t * 7) as i128 % 97))].into_iter().collect());
+    let eval = |rs: &RuleSet, f: &Value| -> Vec<Obs> {
+        match crate::engine::exec::block_on(rs.evaluate_value(f)) {
+            Ok(Ok(o)) => o.into_iter().map(|x| observe(Ok(x.value))).collect(),
+            other => vec![Obs::Panic(format!("{:?}", other.map(|_| ())))],
+        }
+    };
+    let mut handles = Vec::new();
+    for t in 0..threads {
+        let (rs, barrier) = (shared.clone(), barrier.clone());
+        handles.push(std::thread::spawn(move || {
+            let mut out = Vec::new();
+            for round in 0..rounds {
+                barrier.wait();
+                let f = Value::Map([("id".to_string(), Value::Int((round * 8 + t) as i128)), ("other".to_string(), Value::Int((round * 31 + t * 7) as i128 % 97))].into_iter().collect());
+                let o: Vec<Obs> = match crate::engine::exec::block_on(rs.evaluate_value(&f)) {
+                    Ok(Ok(o)) => o.into_iter().map(|x| observe(Ok(x.value))).collect(),
+                    other => vec![Obs::Panic(format!("{:?}", other.map(|_| ())))],
+                };
+                out.push(o);
+            }
+            out
+        }));
+    }
+    let results: Vec<Vec<Vec<Obs>>> = handles.into_iter().map(|h| h.join().unwrap_or_default()).collect();
+    let mut wrong = 0usize;
+    let mut first: Option<String> = None;
+    for (t, per_thread) in results.iter().enumerate() {
+        for (round, got) in per_thread.iter().enumerate() {
+            let want = eval(&reference, &facts(round, t));
+            if *got != want {
+                wrong += 1;
+                if first.is_none() {
+                    first = Some(format!("thread {t}, round {round}: {:?} instead of {:?}", got.iter().map(|o| o.show()).collect::<Vec<_>>(), want.iter().map(|o| o.show()).collect::<Vec<_>>()));
+                }
+            }
+        }
+    }
+    acc.count("stress_evaluations_sampled_not_deciding", (threads * rounds) as u64);
+    if let Some(f) = first {
+        acc.violation(Violation {
+            sig: "stress/outcome".into(),
+            what: format!("{wrong} of {} concurrent evaluations on 8 OS threads differ from the sequential reference; first: {f}", threads * rounds),
+            case: json!({"kind": "stress"}),
+            size: 1,
+        });
+    }
 }
 
 pub fn run(tier: Tier) -> i32 {
@@ -285,8 +372,14 @@ pub fn run(tier: Tier) -> i32 {
         acc.machinery("no loom schedule explored");
     }
     migration_leg(&mut acc, tier.pick(20, 200));
+    stress_leg(&mut acc, tier.pick(300, 3000));
     acc.sample("scenario", 1, || json!({"two": "2 threads, rules [c(id), n(id), c(id), c(other), bad(id)], inputs {id:1,other:2} / {id:2,other:1}, every user-function call suspends once", "handoff": "thread 0 polls an evaluation once, hands the future to thread 1 which finishes it while thread 0 runs another evaluation"}));
     let hits = scan_repo();
+    let unmodelled: Vec<&String> = hits.iter().filter(|h| !h.contains("lazy_static") && !h.contains("EMPTY_RULES")).collect();
+    if !unmodelled.is_empty() {
+        println!("WARNING property=C18 reval now contains state or synchronisation primitives that the loom exploration does not own ({} source lines, see closed_world_scan in the evidence); only the migration and stress legs can observe them", unmodelled.len());
+        rep.note(format!("{} source lines with state/synchronisation primitives outside the loom model", unmodelled.len()));
+    }
     rep.extra.insert("closed_world_scan".into(), json!(hits));
     rep.extra.insert("loom_scenarios".into(), json!(covered));
     rep.extra.insert("schedules".into(), json!(schedules));
@@ -296,6 +389,7 @@ pub fn run(tier: Tier) -> i32 {
     rep.traces = schedules;
     rep.rule = "loom (DPOR, preemption-bounded) over 2-3 model threads each running block_on(evaluate_value) on one Arc<RuleSet> with distinct inputs; user functions take a loom mutex, bump loom atomics and suspend once, which gives loom its scheduling points exactly where evaluations can meet; plus a hand-off scenario in which a suspended evaluation is finished on another thread, and a migration leg on real OS threads (strictly alternating, deterministic: an evaluation is polled k times on thread A and finished on thread B, N times in a row for every suspension point k, then A evaluates afresh; this is where per-thread state inside reval would show, which loom cannot see because its model threads share one OS thread); oracle: every evaluation's outcomes equal the sequential run and the invocation log is a permutation of the sequential logs; states = schedules explored, transitions = synchronisation operations executed".into();
     rep.assume("type-level half (Send/Sync of the public types and evaluation futures) is decided by rustc when mc/c18gate is compiled, not by exploration");
+    rep.assume("the stress leg (8 OS threads, barrier-released rounds) samples schedules and is labelled non-deciding: a mismatch it reports is real, its silence is not evidence");
     rep.assume("loom only sees loom types: reval has no synchronisation primitive of its own (closed_world_scan lists what a grep for such primitives finds in /repo/src); a std lock added to reval would be invisible to the scheduler");
     rep.finish()
 }
